@@ -37,9 +37,17 @@ pub struct Plan {
   /// has no business bounding `step` requests. None = the default.
   #[serde(default)]
   pub max_steps: Option<usize>,
+  /// second phase, after every replica has done its whole-plan requests: requests for ONE plan
+  /// element (`step(id, n)`, id = 1 + raw % plan length, or plan length + 1 if `beyond`), executed
+  /// by every replica; `splits[replica]` decomposes n for that replica
+  #[serde(default)]
+  pub singles: Vec<SingleReq>,
 }
 
-enum Cmd { Interpret, Step(u64), Quit }
+#[derive(Clone, Debug, Serialize, Deserialize)]
+pub struct SingleReq { pub raw: usize, pub beyond: bool, pub n: u64, pub splits: Vec<Vec<u64>> }
+
+enum Cmd { Interpret, Step(u64), StepOne(usize, u64), Quit }
 struct Reply { outcome: Outcome, store: Store, plan_len: usize }
 
 /// True if the text certainly contains no assignment / op-assignment statement (conservative:
@@ -191,7 +199,15 @@ pub fn plan(seed: u64, k: u64, corpus: &[(String, String)]) -> Plan {
   rng.shuffle(&mut slots);
   // a low transition budget only for programs without a state-machine invocation (there it is semantic)
   let max_steps = if !text.contains('#') && rng.chance(1, 5) { Some(*rng.pick(&[1usize, 2, 3, 5])) } else { None };
-  Plan { program_name: name, program_text: text, replicas, schedule: slots, max_steps }
+  let mut singles = vec![];
+  if rng.chance(1, 3) {
+    for _ in 0..(1 + rng.usize(3)) {
+      let n = rng.below(5);
+      let splits = (0..n_rep).map(|_| decompose(&mut rng, n)).collect();
+      singles.push(SingleReq { raw: rng.usize(64), beyond: rng.chance(1, 10), n, splits });
+    }
+  }
+  Plan { program_name: name, program_text: text, replicas, schedule: slots, max_steps, singles }
 }
 
 #[derive(Clone, Debug, Serialize, Deserialize)]
@@ -259,6 +275,7 @@ pub fn execute(pl: &Plan) -> RunOut {
         let outcome = match cmd {
           Cmd::Interpret => node.interpret(&tree),
           Cmd::Step(c) => node.step(0, c),
+          Cmd::StepOne(id, c) => node.step(id, c),
           Cmd::Quit => break,
         };
         let reply = Reply { outcome, store: node.store(), plan_len: node.plan_len() };
@@ -346,6 +363,51 @@ pub fn execute(pl: &Plan) -> RunOut {
             // remember a step result for this total as well, so later step results are compared with it
             seen.insert(t, (ri, reply.store.clone(), reply.outcome.clone(), kind));
           }
+        }
+      }
+    }
+  }
+  // ---- phase 2: requests for one plan element, the same list on every replica
+  if violation.is_none() && !pl.singles.is_empty() && alive.iter().all(|a| *a) && total.iter().all(|t| *t == total[0]) {
+    'reqs: for (j, rq) in pl.singles.iter().enumerate() {
+      let mut results: Vec<(Outcome, Store)> = vec![];
+      for ri in 0..n {
+        let mut last: Option<(Outcome, Store)> = None;
+        let parts: Vec<u64> = rq.splits.get(ri).cloned().unwrap_or_else(|| vec![rq.n]);
+        let parts = if parts.is_empty() { vec![0] } else { parts };
+        for c in parts {
+          // the plan length is the same on every replica (checked through the stores and outcomes so far)
+          if txs[ri].send(Cmd::StepOne(usize::MAX, 0)).is_err() { break 'reqs; } // probe: plan length
+          let plen = match rxs[ri].recv() { Ok(r) => r.plan_len, Err(_) => break 'reqs };
+          if plen == 0 { break 'reqs; }
+          let id = if rq.beyond { plen + 1 } else { 1 + rq.raw % plen };
+          if txs[ri].send(Cmd::StepOne(id, c)).is_err() { break 'reqs; }
+          let reply = match rxs[ri].recv() { Ok(r) => r, Err(_) => { violation = Some(vio("host-aborted", "replica-thread-died".into(), format!("replica {} died executing step({},{})", ri, id, c))); break 'reqs; } };
+          bump(&mut counters, "steps", 1);
+          bump(&mut counters, "fault:single-element-step", 1);
+          if rq.beyond { bump(&mut counters, "fault:step-id-beyond-the-plan", 1); }
+          dig.u64(ri as u64); dig.str(&format!("step({},{})", id, c)); dig.str(&reply.outcome.digest_text()); dig.u64(store_digest(&reply.store));
+          log.push(format!("replica {} step({},{}) => {} ; store digest {:016x}", ri, id, c, trunc(&reply.outcome.show(), 100), store_digest(&reply.store)));
+          if !matches!(&reply.outcome, Outcome::Ok(_) | Outcome::Err { .. }) { bump(&mut counters, "reach:step-panicked", 1); break 'reqs; }
+          if no_assign {
+            if let Some(s0) = &after_interpret[ri] {
+              if *s0 != reply.store { violation = Some(vio("reevaluation-changed-assignment-free-program", format!("single-element|{}", diff_kind(s0, &reply.store)), format!("replica {} after step({},{}): {} (after interpret vs now)", ri, id, c, first_diff(s0, &reply.store)))); break 'reqs; }
+            }
+          }
+          last = Some((reply.outcome, reply.store));
+        }
+        match last { Some(x) => results.push(x), None => break 'reqs }
+      }
+      // request j done everywhere: same store; same kind of answer (values only when the last piece was not a zero-count request)
+      for ri in 1..results.len() {
+        if results[ri].1 != results[0].1 {
+          violation = Some(vio("replicas-diverged", format!("single-element|{}", diff_kind(&results[0].1, &results[ri].1)), format!("after single-element request #{} (n={}, splits {:?} vs {:?}) replica 0 and replica {} differ: {}", j, rq.n, rq.splits.get(0), rq.splits.get(ri), ri, first_diff(&results[0].1, &results[ri].1))));
+          break 'reqs;
+        }
+        let same = match (&results[0].0, &results[ri].0) { (Outcome::Err { name: a, .. }, Outcome::Err { name: b, .. }) => a == b, (Outcome::Ok(a), Outcome::Ok(b)) => a == b, _ => false };
+        if !same {
+          violation = Some(vio("command-result-differs", "single-element-step".into(), format!("single-element request #{}: replica 0 returned {} and replica {} returned {}", j, trunc(&results[0].0.show(), 100), ri, trunc(&results[ri].0.show(), 100))));
+          break 'reqs;
         }
       }
     }
